@@ -381,17 +381,25 @@ impl DocGen {
         }
         let n = self.shape.range(2, 9);
         let mut items = Vec::new();
+        let mut last_name: Option<String> = None;
         for _ in 0..n {
             // names that sort differently from generation order
             let w = self.word();
             self.counter += 1;
-            let name = format!("{}{}zq{}", w, self.counter, self.tag);
-            if self.shape.chance(0.2) {
+            let mut name = format!("{}{}zq{}", w, self.counter, self.tag);
+            // the same path again under another alias: items that compare equal on the path
+            // (any order among them that is not a function of the text is a leak)
+            let repeat = last_name.is_some() && self.shape.chance(0.3);
+            if repeat {
+                name = last_name.clone().unwrap();
+            }
+            if repeat || self.shape.chance(0.25) {
                 let alias = self.ident();
                 items.push(format!("{} as {}", name, alias));
             } else {
-                items.push(name);
+                items.push(name.clone());
             }
+            last_name = Some(name);
         }
         if self.shape.chance(0.1) {
             // comment inside the list: a guard against reordering
@@ -477,10 +485,46 @@ impl DocGen {
         format!("#{}{}", f, self.list_body(items, 0))
     }
 
+    /// a deeply nested expression (depth levels), mixing the constructs that recurse through
+    /// the printer's conversion entry points
+    pub fn deep(&mut self, levels: usize) -> String {
+        let mut s = self.atom();
+        for _ in 0..levels {
+            s = match self.shape.below(7) {
+                0 => format!("({},)", s),
+                1 => {
+                    let f = self.shape.pick(FUNCS).to_string();
+                    format!("{}({})", f, s)
+                }
+                2 => {
+                    let k = self.ident();
+                    format!("({}: {})", k, s)
+                }
+                3 => format!("[#{}]", s.trim_start_matches('#')),
+                4 => format!("{{ {} }}", s),
+                5 => {
+                    let a = self.atom();
+                    format!("({}, {})", a, s)
+                }
+                _ => {
+                    let p = self.ident();
+                    format!("({}) => {}", p, s)
+                }
+            };
+        }
+        s
+    }
+
     /// one top-level markup item (no trailing newline)
     pub fn item(&mut self) -> String {
         let depth = self.shape.range(1, 3);
-        match self.shape.weighted(&[8, 5, 6, 5, 3, 3, 4, 3, 3, 2, 2, 2, 2, 2, 2, 2]) {
+        match self.shape.weighted(&[8, 5, 6, 5, 3, 3, 4, 3, 3, 2, 2, 2, 2, 2, 2, 2, 1]) {
+            16 => {
+                let id = self.ident();
+                let levels = self.shape.range(8, 40);
+                let e = self.deep(levels);
+                format!("#let {} = {}", id, e)
+            }
             0 => {
                 let id = self.ident();
                 let e = self.expr(depth);
